@@ -1,6 +1,7 @@
 package dnsforward
 
 import (
+	"cmp"
 	"encoding/json"
 	"fmt"
 	"net/http"
@@ -125,6 +126,34 @@ func (a *accessManager) isBlockedClientID(id string) (ok bool) {
 	}
 
 	return a.blockedClientIDs.Has(id)
+}
+
+// isBlockedClient returns true if the client is blocked by a.  Note that rule
+// might be empty if the client is blocked by the ClientID.
+func (a *accessManager) isBlockedClient(ip netip.Addr, clientID string) (blocked bool, rule string) {
+	blockedByIP := false
+	if ip != (netip.Addr{}) {
+		blockedByIP, rule = a.isBlockedIP(ip)
+	}
+
+	allowlistMode := a.allowlistMode()
+	blockedByClientID := a.isBlockedClientID(clientID)
+
+	// Allow if at least one of the checks allows in allowlist mode, but block
+	// if at least one of the checks blocks in blocklist mode.
+	if allowlistMode && blockedByIP && blockedByClientID {
+		log.Debug("dnsforward: client %v (id %q) is not in access allowlist", ip, clientID)
+
+		// Return now without substituting the empty rule for the
+		// clientID because the rule can't be empty here.
+		return true, rule
+	} else if !allowlistMode && (blockedByIP || blockedByClientID) {
+		log.Debug("dnsforward: client %v (id %q) is in access blocklist", ip, clientID)
+
+		blocked = true
+	}
+
+	return blocked, cmp.Or(rule, clientID)
 }
 
 // isBlockedHost returns true if host should be blocked.
